@@ -8,9 +8,11 @@ def run(chk):
                 "program(batch) == batch::concat_b(program(sample_b)), program(x with batch 1) == program(B copies of x); incompatible batch "
                 "sizes must be rejected; exact on integer data; both backends. Non-trivial = accepted call; distinct = distinct lines.")
     libs = _compose.load(_compose.KERNEL_LIBS, chk)
-    _compose.obligations(chk, "C03", libs)
+    _compose.obligations(chk, "C03", libs, own_drivers=["shape", "shapespec"])
     for lib in libs:
         _compose.run_lib(lib, chk, "C03")
+    from props import C09 as _c09
+    _c09.run_batch_rules(chk)
     for f in _compose.load(["_funcs"], chk):
         if hasattr(f, "run_metamorphic"):
             f.run_metamorphic(chk)
